@@ -18,11 +18,13 @@ const (
 	SString
 	SBV
 	SArray
+	SUninterp
 )
 
 type Sort struct {
 	Kind SortKind
-	W    int   // bit-vector width
+	Name string // uninterpreted sort name
+	W    int    // bit-vector width
 	Idx  *Sort // array index
 	Elem *Sort // array element
 }
@@ -31,6 +33,7 @@ var (
 	BoolS   = &Sort{Kind: SBool}
 	IntS    = &Sort{Kind: SInt}
 	StringS = &Sort{Kind: SString}
+	StrU    = &Sort{Kind: SUninterp, Name: "Str"}
 	BV32S   = &Sort{Kind: SBV, W: 32}
 	BV64S   = &Sort{Kind: SBV, W: 64}
 )
@@ -75,6 +78,8 @@ func (s *Sort) String() string {
 		return fmt.Sprintf("(_ BitVec %d)", s.W)
 	case SArray:
 		return "(Array " + s.Idx.String() + " " + s.Elem.String() + ")"
+	case SUninterp:
+		return s.Name
 	}
 	return "?"
 }
@@ -374,6 +379,10 @@ func knownDistinct(a, b *Term) bool {
 	if oka && okb && ba == bb {
 		return ka != kb
 	}
+	if oka && okb && ka >= 1 && kb >= 1 && strings.HasPrefix(ba, "heaptop") && strings.HasPrefix(bb, "heaptop") {
+		// different frontiers on one path: the later frontier lies above every earlier allocation
+		return true
+	}
 	// a fresh allocation (+ top k), k >= 1, never equals nil
 	if oka && ka >= 1 && b.Op == "int" && b.Int.Sign() == 0 {
 		return true
@@ -671,11 +680,13 @@ type decls struct {
 	hasLam   bool
 	hasQuant bool
 	hasStr   bool
+	hasStrU  bool
 	seen     map[*Term]bool
+	strLits  map[string]bool
 }
 
 func newDecls() *decls {
-	return &decls{consts: map[string]*Sort{}, defSeen: map[string]bool{}, funcs: map[string]string{}, seen: map[*Term]bool{}}
+	return &decls{consts: map[string]*Sort{}, defSeen: map[string]bool{}, funcs: map[string]string{}, seen: map[*Term]bool{}, strLits: map[string]bool{}}
 }
 
 func (d *decls) visit(t *Term) {
@@ -687,6 +698,8 @@ func (d *decls) visit(t *Term) {
 		d.hasStr = true
 	}
 	switch t.Op {
+	case "str":
+		d.strLits[t.Str] = true
 	case "const":
 		d.consts[t.Name] = t.Sort
 		d.noteSort(t.Sort)
@@ -733,6 +746,9 @@ func (d *decls) noteSort(s *Sort) {
 		if s.Kind == SString {
 			d.hasStr = true
 		}
+		if s.Kind == SUninterp {
+			d.hasStrU = true
+		}
 		if s.Kind == SArray {
 			d.noteSort(s.Idx)
 			s = s.Elem
@@ -743,6 +759,9 @@ func (d *decls) noteSort(s *Sort) {
 }
 
 func (d *decls) emit(b *strings.Builder) {
+	if d.hasStrU {
+		b.WriteString("(declare-sort Str 0)\n")
+	}
 	names := make([]string, 0, len(d.consts))
 	for n := range d.consts {
 		names = append(names, n)
@@ -795,3 +814,29 @@ func subst(t *Term, m map[string]*Term) *Term {
 }
 
 func itoa(i int) string { return strconv.Itoa(i) }
+
+// termSize counts nodes (definitions count as one).
+func termSize(t *Term, limit int) int {
+	n := 1
+	if t.Op == "def" {
+		return 1
+	}
+	for _, a := range t.Args {
+		n += termSize(a, limit-n)
+		if n > limit {
+			return n
+		}
+	}
+	return n
+}
+
+// nameBig gives a large term a name so that later uses do not copy it.
+func nameBig(t *Term) *Term {
+	if t == nil || t.Op == "def" || t.Op == "const" {
+		return t
+	}
+	if termSize(t, 24) > 24 {
+		return Def(freshName("t"), t)
+	}
+	return t
+}
